@@ -88,6 +88,18 @@ void AsyncSink::onLogBackEndReadPipe(const void *data_ptr, size_t data_size)
         std::cerr << timestamp_str_ << " NOTICE: log sink cost > 500 ms, " << time_cost.count() / 1000 << " us" << std::endl;
 }
 
+namespace {
+//! snprintf() 返回的是"完整输出所需的长度"，可能大于等于缓冲区大小(被截断时)，也可能为负(出错时)
+//! 这里换算成缓冲区中实际有效的字符数
+size_t ValidLen(int snprintf_ret, size_t buff_size)
+{
+    if (snprintf_ret <= 0)
+        return 0;
+    size_t len = static_cast<size_t>(snprintf_ret);
+    return (len < buff_size) ? len : (buff_size - 1);
+}
+}
+
 void AsyncSink::onLogBackEnd(const LogContent &content)
 {
     char buff[1024];
@@ -97,19 +109,19 @@ void AsyncSink::onLogBackEnd(const LogContent &content)
 
     //! 开启色彩，显示日志等级
     if (enable_color_) {
-        len = snprintf(buff, sizeof(buff), "\033[%sm", LOG_LEVEL_COLOR_CODE[content.level]);
+        len = ValidLen(snprintf(buff, sizeof(buff), "\033[%sm", LOG_LEVEL_COLOR_CODE[content.level]), sizeof(buff));
         append(buff, len);
     }
 
     //! 打印等级、时间戳、线程号、模块名
-    len = snprintf(buff, sizeof(buff), "%c %s.%06u %ld %s ",
+    len = ValidLen(snprintf(buff, sizeof(buff), "%c %s.%06u %ld %s ",
             LOG_LEVEL_LEVEL_CODE[content.level],
             timestamp_str_, content.timestamp.usec,
-            content.thread_id, content.module_id);
+            content.thread_id, content.module_id), sizeof(buff));
     append(buff, len);
 
     if (content.func_name != nullptr) {
-        len = snprintf(buff, sizeof(buff), "%s() ", content.func_name);
+        len = ValidLen(snprintf(buff, sizeof(buff), "%s() ", content.func_name), sizeof(buff));
         append(buff, len);
     }
 
@@ -124,7 +136,7 @@ void AsyncSink::onLogBackEnd(const LogContent &content)
     }
 
     if (content.file_name != nullptr) {
-        len = snprintf(buff, sizeof(buff), "-- %s:%d",  content.file_name, content.line);
+        len = ValidLen(snprintf(buff, sizeof(buff), "-- %s:%d",  content.file_name, content.line), sizeof(buff));
         append(buff, len);
     }
 
